@@ -97,8 +97,10 @@ class DotRenderer:
             "margin": "0",
             "bgcolor": self.config.palette.background,
         }
-        if not (name := hugr[hugr.root].metadata.get("name", None)):
-            name = ""
+        # Metadata values are arbitrary JSON-like data, but graphviz only accepts
+        # strings as graph identifiers.
+        name = hugr[hugr.root].metadata.get("name")
+        name = str(name) if name else ""
 
         graph = gv.Digraph(name, strict=False)
         graph.attr(**graph_attr)
